@@ -317,6 +317,65 @@ fn run_overlap(variant: usize, o: &mut Outcome) {
     o.key(hash64(&("overlap", variant)));
 }
 
+fn run_number_from_assets(o: &mut Outcome) {
+    use crate::common::tirb;
+    use crate::gen::tirgen;
+    use tx3_tir::compile::Compiler as _;
+    use tx3_tir::model::v1beta0 as tir;
+    let tok = |p: u8, n: i128| tirb::token(&[p; 28], b"T", n);
+    let lists: Vec<(&str, Vec<tir::AssetExpr>)> = vec![
+        ("lovelace+token", vec![tirb::lovelace(10), tok(0x51, 4)]),
+        ("token+lovelace", vec![tok(0x51, 4), tirb::lovelace(10)]),
+        ("two-tokens", vec![tok(0x51, 4), tok(0x52, 7)]),
+        ("three-classes", vec![tirb::lovelace(10), tok(0x51, 4), tok(0x52, 7)]),
+    ];
+    let mut subjects: Vec<(String, Box<dyn Fn(tir::Expression) -> tir::Tx>)> = vec![];
+    for (i, name) in tirgen::PLACEMENTS.iter().enumerate() {
+        if matches!(*name, "fees" | "validity.since" | "validity.until" | "metadata[0].key") {
+            subjects.push((name.to_string(), Box::new(move |e| tirgen::place(i, e))));
+        }
+    }
+    for (dname, key, others) in [
+        ("withdrawal", "amount", vec![("credential", tir::Expression::Address(crate::common::pipeline::stake_address(6, 0)))]),
+        ("treasury_donation", "coin", vec![]),
+    ] {
+        subjects.push((
+            format!("{dname}.{key}"),
+            Box::new(move |e| {
+                let mut tx = tirgen::place(0, tirb::assets(vec![tirb::lovelace(200_000)]));
+                let mut data: std::collections::HashMap<String, tir::Expression> = others.iter().cloned().map(|(k, v)| (k.to_string(), v)).collect();
+                data.insert(key.to_string(), e);
+                tx.adhoc.push(tir::AdHocDirective { name: dname.to_string(), data });
+                tx
+            }),
+        ));
+    }
+    for (at, build) in &subjects {
+        // the same field with one class compiles (so a refusal below is about the value, not the field)
+        let single = build(tirb::assets(vec![tirb::lovelace(10)]));
+        let mut comp = compiler(&PP::default());
+        let control = panics::catch(|| comp.compile(&AnyTir::V1Beta0(single))).map(|r| r.is_ok()).unwrap_or(false);
+        for (lname, list) in &lists {
+            o.evals += 1;
+            let tx = build(tirb::assets(list.clone()));
+            let mut comp = compiler(&PP::default());
+            match panics::catch(|| comp.compile(&AnyTir::V1Beta0(tx))) {
+                Err(_) => o.class("number-from-assets:panic(C14)"),
+                Ok(Err(_)) => o.class("number-from-assets:refused"),
+                Ok(Ok(c)) => {
+                    o.class("number-from-assets:compiled");
+                    let what = txdecode::decode_tx(&c.payload).map(|r| format!("fee {} ttl {:?} start {:?} withdrawals {:?} donation {:?}", r.fee, r.ttl, r.validity_start, r.withdrawals.iter().map(|w| w.1).collect::<Vec<_>>(), r.donation)).unwrap_or_default();
+                    o.violate(Violation::new(
+                        format!("not-an-error|several-asset-classes-read-as-one-number|{at}"),
+                        format!("{at} holds {lname} (single class compiles: {control}), yet a transaction came out: {what}"),
+                    ));
+                }
+            }
+            o.key(hash64(&(at, lname)));
+        }
+    }
+}
+
 impl Prop for C02 {
     fn id(&self) -> &'static str {
         "C02"
@@ -351,6 +410,9 @@ impl Prop for C02 {
         for variant in 0..24usize {
             sink.case(|| json!({"kind": "overlap", "choices": ["overlap", variant], "variant": variant, "q": "-", "extra": "-"}));
         }
+        // a value of several asset classes in a field that holds one number (fee, validity bounds, metadata label,
+        // withdrawal amount, donation): no single number stands for it
+        sink.case(|| json!({"kind": "number-from-assets", "choices": ["number-from-assets"], "q": "-", "extra": "-"}));
         let mut gen = |c: &mut Chooser| prog::generate(c);
         let qs = boundary_ints();
         dbx::explore(k_for(tier), &mut gen, &mut |choices, _d, sc| {
@@ -371,6 +433,10 @@ impl Prop for C02 {
         let mut o = Outcome::default();
         if case["kind"] == "overlap" {
             run_overlap(case["variant"].as_u64().unwrap_or(0) as usize, &mut o);
+            return o;
+        }
+        if case["kind"] == "number-from-assets" {
+            run_number_from_assets(&mut o);
             return o;
         }
         let choices: Vec<usize> = case["choices"].as_array().map(|a| a.iter().filter_map(|x| x.as_u64().map(|x| x as usize)).collect()).unwrap_or_default();
